@@ -14,7 +14,8 @@ from . import core
 
 class SuiteCfg:
     def __init__(self, name, parts_thorough=16, timeout=3000, nontrivial=None, signature=None,
-                 has_spec=False, describe="", kind="diff", observable=None, classify=None, env=None):
+                 has_spec=False, describe="", kind="diff", observable=None, classify=None, env=None,
+                 stateless=False):
         self.name = name
         self.parts_thorough = parts_thorough
         self.timeout = timeout
@@ -33,6 +34,8 @@ class SuiteCfg:
         # classify(op_line, impl_out) -> label for the evidence histogram
         self.classify = classify or (lambda op, out: op.split(" ", 1)[0])
         self.env = env or {}
+        # stateless: every line is its own case (no "new" separators)
+        self.stateless = stateless
 
 
 class PropCfg:
@@ -115,6 +118,20 @@ def analyse_part(prop, suite, tie, stats, failures, max_failures=12):
             failures.append({"suite": suite.name, "ops": io[-5:], "impl": io[-5:], "model": mo[-5:], "k": 0,
                              "note": "trace and verdict streams have different lengths"})
         return
+    if suite.stateless:
+        stats["cases"] += len(ops)
+        for k, o in enumerate(ops):
+            r = io[k] if k < len(io) else "<missing>"
+            m = mo[k] if k < len(mo) else "<missing>"
+            stats["hist"][suite.classify(o, r)] += 1
+            if suite.nontrivial([o], [r]):
+                stats["distinct"].add(hash(o))
+            if r != m and suite.observable(o) and len(failures) < 400:
+                failures.append({"suite": suite.name, "ops": [o], "impl": [r], "model": [m], "k": 0})
+        for k in range(0, len(ops), max(1, len(ops) // 3)):
+            if len(stats["samples"]) < 3 and k < len(io) and k < len(mo):
+                stats["samples"].append({"op": ops[k], "impl": io[k][:120], "model": mo[k][:120]})
+        return
     for a, b in zip(starts, starts[1:]):
         cops, cio, cmo = ops[a:b], io[a:b], mo[a:b]
         stats["cases"] += 1
@@ -136,7 +153,7 @@ def analyse_part(prop, suite, tie, stats, failures, max_failures=12):
 
 
 def shrink_failure(prop, suite, f):
-    if suite.kind == "monitor" or "note" in f:
+    if suite.kind == "monitor" or "note" in f or suite.stateless:
         return f
     def fails(ops):
         io, mo = run_case(prop, suite, ops)
@@ -216,8 +233,16 @@ def run_check(cfg, tier, seed):
         known = [k for k in core.load_known() if k.get("property") == pid and k.get("status") == "known"]
         seen_sigs = []
         suites_by_name = {s.name: s for s in cfg.suites}
+        pre_seen = []
         for f in failures:
             suite = suites_by_name[f["suite"]]
+            if suite.stateless:
+                ps = suite.signature(f["ops"], f["impl"], f["model"], f["k"])
+                if ps in pre_seen:
+                    continue
+                pre_seen.append(ps)
+            if len(seen_sigs) >= 12:
+                break
             g = shrink_failure(pid, suite, f)
             k = g["k"]
             sig = suite.signature(g["ops"], g["impl"], g["model"], k)
